@@ -377,9 +377,11 @@ static ChildOut run_in_child(const Plan &p, const std::string &checkprop) {
 }
 
 // ---------------------------------------------------------------- minimisation (ddmin over operations, then faults)
+static std::vector<Known> g_known;
 static Plan minimise(const Plan &p0, const std::string &checkprop, const std::string &cls, int &tests) {
     Plan best = p0;
-    auto fails = [&](const Plan &c) { tests++; ChildOut o = run_in_child(c, checkprop); return o.cls == cls; };
+    // same class, and not sliding into a listed known finding of that class
+    auto fails = [&](const Plan &c) { tests++; ChildOut o = run_in_child(c, checkprop); return o.cls == cls && !match_known(g_known, checkprop, o.cls, o.detail); };
     // ddmin on ops
     size_t n = 2;
     while (best.ops.size() >= 2 && tests < 400) {
@@ -713,15 +715,23 @@ int main(int argc, char **argv) {
 
     // ---- violations: classify, group by class, minimise one representative per class, gate by replay
     auto known = load_known(known_path);
+    g_known = known;
     std::map<std::string, std::pair<uint64_t, std::string>> by_class; // class -> (smallest index, detail)
+    // one representative per class; occurrences that match a listed known finding are kept apart (by the finding's key), so that a
+    // known finding never hides a different violation of the same class
+    std::map<std::string, std::string> group_class;
     for (auto &v : a.violations) {
         auto tab = v.second.find('\t');
         std::string cls = v.second.substr(0, tab), det = tab == std::string::npos ? "" : v.second.substr(tab + 1);
-        if (!by_class.count(cls) || v.first < by_class[cls].first) by_class[cls] = {v.first, det};
+        std::string g = cls;
+        if (const Known *k = match_known(known, cls.substr(0, cls.find(':')), cls, det)) g = cls + "\t" + k->key;
+        group_class[g] = cls;
+        if (!by_class.count(g) || v.first < by_class[g].first) by_class[g] = {v.first, det};
     }
     for (auto &c : crashes) {
         std::string det, cls = classify_crash(c.second, det);
         cls = prop + ":" + cls.substr(4);
+        group_class[cls] = cls;
         if (!by_class.count(cls) || c.first < by_class[cls].first) by_class[cls] = {c.first, det};
     }
     int n_viol = 0, n_known = 0, harness_fault = 0;
@@ -730,7 +740,8 @@ int main(int argc, char **argv) {
     mkdir((replay_dir + "/" + prop).c_str(), 0755);
     std::set<std::string> done_classes;
     for (auto &kv : by_class) {
-        const std::string &cls0 = kv.first;
+        const std::string &cls0 = group_class[kv.first];
+        bool known_group = kv.first != cls0;
         uint64_t idx = kv.second.first;
         std::string cls = cls0;
         std::string vprop = cls.substr(0, cls.find(':'));
@@ -749,9 +760,9 @@ int main(int argc, char **argv) {
             printf("NOTE: run %llu reported %s in the worker and %s in isolation; using the isolated result\n", (unsigned long long)idx, cls.c_str(), first.cls.c_str());
             cls = first.cls;
         }
-        if (done_classes.count(cls)) continue;
-        done_classes.insert(cls);
+        { std::string dk = match_known(known, prop, cls, first.detail) ? kv.first : cls; if (done_classes.count(dk)) continue; done_classes.insert(dk); }
         std::string detail = first.detail;
+        (void)known_group;
         if (const Known *k = match_known(known, prop, cls, detail)) {
             n_known++;
             known_lines.push_back("KNOWN-FINDING: property=" + prop + " " + cls + " :: " + detail + (k->text.empty() ? "" : " --" + k->text));
@@ -760,7 +771,7 @@ int main(int argc, char **argv) {
         int tests = 0;
         Plan m = no_minimise ? p : minimise(p, prop, cls, tests);
         ChildOut r1 = run_in_child(m, prop), r2 = run_in_child(m, prop);
-        if (r1.cls != cls || r2.cls != cls || (!r1.crashed && r1.hash != r2.hash)) { printf("HARNESS: minimised plan for %s does not reproduce deterministically\n", cls.c_str()); harness_fault++; continue; }
+        if (r1.cls != cls || r2.cls != cls || (!r1.crashed && r1.hash != r2.hash) || match_known(known, prop, r1.cls, r1.detail)) { printf("HARNESS: minimised plan for %s does not reproduce deterministically\n", cls.c_str()); harness_fault++; continue; }
         m.expect_class = cls; m.expect_hash = r1.crashed ? 0 : r1.hash;
         char name[256];
         snprintf(name, sizeof name, "%s/%s/%llu-%016llx.plan", replay_dir.c_str(), prop.c_str(), (unsigned long long)idx, (unsigned long long)(r1.hash ^ std::hash<std::string>()(cls)));
